@@ -1,4 +1,19 @@
 import MpfVerif.DriverLoop
 import MpfVerif.Model.BallLedger
-/-! Driver of the ball-ledger monitor (C05 shares the model of C04). -/
-def main : IO UInt32 := MpfVerif.runDriver MpfVerif.BallLedger.driverStep {}
+import MpfVerif.Model.BallPromise
+/-! Driver of C05: the ball-ledger monitor (model shared with C04) and, for lines starting with `gs `, the promise ledger of
+the game-level requests (Model/BallPromise.lean). -/
+structure C05St where
+  led : MpfVerif.BallLedger.DSt := {}
+  pr : MpfVerif.BallPromise.St := {}
+
+def c05Step (s : C05St) (line : String) : C05St × String :=
+  match line.splitOn " " with
+  | "gs" :: rest =>
+    let (p, o) := MpfVerif.BallPromise.driverToks s.pr rest
+    ({ s with pr := p }, o)
+  | _ =>
+    let (l, o) := MpfVerif.BallLedger.driverStep s.led line
+    ({ s with led := l }, o)
+
+def main : IO UInt32 := MpfVerif.runDriver c05Step {}
